@@ -11,6 +11,8 @@
    deadline [kdl k].  No theorem assumes the clock to be monotone.             *)
 From Compio.Model Require Import Base Timer.
 From Compio.Thm Require Import TimerThm.
+From Compio.Gen Require Frag.
+From Compio.Thm Require FragMiscThm.
 
 Local Open Scope Z_scope.
 
@@ -394,3 +396,17 @@ Example C09_interval_flag_order_matters :
   tick_deadline (mkinterval false 1000 250) 400 = 1000.
 Proof. vm_compute. split; reflexivity. Qed.
 Print Assumptions C09_interval_flag_order_matters.
+
+(* ---- source tie (translated from the Rust source on every run by tools/rs2v.py
+        into gen/Frag.v; an edit of the function changes the generated definition) ---- *)
+(* the two arithmetic lines of Interval::tick (compio-runtime/src/time/future.rs: `rem` and
+   `next`, Instants and Durations read as nanosecond counts, `Instant - Instant` saturating,
+   the `as u64` / `as u32` casts explicit) as the source has them now compute the model's
+   interval_next, for every start, every period that is a Duration and every clock value *)
+Theorem C09_interval_next_is_source : forall start period now : Z,
+  (0 <= start)%Z -> (0 <= now)%Z -> (0 < period)%Z -> (period < DUR_LIMIT)%Z ->
+  Z.of_N (Frag.interval_next (Z.to_N now) (Z.to_N period)
+            (Frag.interval_rem (Z.to_N now) (Z.to_N start) (Z.to_N period)))
+  = interval_next start period now.
+Proof. exact FragMiscThm.interval_tie. Qed.
+Print Assumptions C09_interval_next_is_source.
